@@ -196,8 +196,7 @@ Proof.
 Qed.
 Lemma frame_handle_from_bytes bs : frame (handle_from_bytes_m bs).
 Proof.
-  intros s. unfold handle_from_bytes_m.
-  destruct ((handle_of_bytes bs =? 0) && cs_debug s); cbn; [exact I | same_tac].
+  intros s. unfold handle_from_bytes_m. same_tac.
 Qed.
 Lemma frame_index_handle : frame index_handle.
 Proof.
